@@ -11,6 +11,9 @@ use std::time::Duration;
 const DEFAULT_TIMEOUT: Duration = Duration::from_secs(5);
 const DEFAULT_BLOCK_SIZE: usize = 512;
 const DEFAULT_WINDOW_SIZE: u16 = 1;
+const MIN_BLOCK_SIZE: usize = 8;
+const MAX_BLOCK_SIZE: usize = 65464;
+const MAX_TIMEOUT: usize = 255;
 
 /// Server `struct` is used for handling incoming TFTP requests.
 ///
@@ -328,7 +331,12 @@ fn parse_options(
         } = option;
 
         match option_type {
-            OptionType::BlockSize => worker_options.block_size = *value,
+            OptionType::BlockSize => {
+                if *value < MIN_BLOCK_SIZE || *value > MAX_BLOCK_SIZE {
+                    return Err("Invalid blksize value");
+                }
+                worker_options.block_size = *value;
+            }
             OptionType::TransferSize => match request_type {
                 RequestType::Read(size) => {
                     *value = size as usize;
@@ -337,7 +345,7 @@ fn parse_options(
                 RequestType::Write => worker_options.transfer_size = *value as u64,
             },
             OptionType::Timeout => {
-                if *value == 0 {
+                if *value == 0 || *value > MAX_TIMEOUT {
                     return Err("Invalid timeout value");
                 }
                 worker_options.timeout = Duration::from_secs(*value as u64);
